@@ -106,6 +106,12 @@ class C01(Machine):
         ops = []
         faulty = rng.random() < 0.45
         for i in range(rng.randint(1, 4)):
+            if i > 0 and rng.random() < 0.3:
+                # the model changes between two calls: through the property
+                # setters, or in place through the arrays themselves
+                ops.append({'op': 'update_model',
+                            'how': rng.choice(['array', 'array', 'setter']),
+                            'seed': rng.randint(0, 10**6)})
             op = {'op': 'solve', 'field': None if i == 0 and
                   rng.random() < 0.8 else rng.choice(FIELDS),
                   'return_info': rng.random() < 0.6,
@@ -200,9 +206,39 @@ class C01(Machine):
                                   'dtype': str(sf.field.dtype)})
             for i, op in enumerate(case['ops']):
                 ctx.opi = i
-                self._call(ctx, st, op)
+                if op['op'] == 'update_model':
+                    self._update_model(ctx, st, op)
+                else:
+                    self._call(ctx, st, op)
         ctx.stats.probe('max_ratio_x1000', 0)
         ctx.stats.probes['max_ratio_x1000'] = int(ctx.max_ratio * 1000)
+
+    def _update_model(self, ctx, st, op):
+        """New conductivities in a sub-block of every property array."""
+        model = st['model']
+        g = np.random.default_rng(op['seed'])
+        nx, ny, nz = model.shape
+        sl = (slice(0, max(1, nx // 2)), slice(ny // 3, ny),
+              slice(0, max(1, (2 * nz) // 3)))
+        for name in ('property_x', 'property_y', 'property_z'):
+            arr = getattr(model, name)
+            if arr is None:
+                continue
+            cond = 10 ** g.uniform(-1.5, 1.0, arr[sl].shape)
+            new = {'Conductivity': cond, 'Resistivity': 1 / cond,
+                   'LgConductivity': np.log10(cond),
+                   'LgResistivity': -np.log10(cond),
+                   'LnConductivity': np.log(cond),
+                   'LnResistivity': -np.log(cond)}[model.map.name]
+            if op['how'] == 'array':
+                arr[sl] = new
+            else:
+                full = np.array(arr)
+                full[sl] = new
+                setattr(model, name, full)
+        ctx.stats.probe('model_updated/' + op['how'])
+        ctx.nontrivial = True
+        ctx.event('update_model', op['how'])
 
     def _supplied(self, st, op):
         import emg3d
